@@ -5,6 +5,9 @@ import json, os, re, subprocess
 ROOT = os.path.dirname(os.path.dirname(os.path.abspath(__file__)))
 RULES = [
  (r"^fix: C interface", "C20"),
+ (r"generator_widening_assign", "C08"),
+ (r"set the status to optimized before a copy|lost its integer variables when the temporary relaxation", "C14"),
+ (r"Box::generalized_affine_image\(lhs", "C04"),
  (r"aliased operands", "C16"),
  (r"cut short|leaked the constraints copied so far|space dimension overflow|beyond max_space_dimension", "C14"),
  (r"limited extrapolations divided by zero", "C08"),
